@@ -91,8 +91,11 @@ class Esc:
 
     @staticmethod
     def _just_reraises(h: ast.ExceptHandler) -> bool:
+        """The handler re-raises whatever it caught on every path (possibly after some bookkeeping)."""
         body = [s for s in h.body if not (isinstance(s, ast.Expr) and isinstance(s.value, ast.Constant))]
-        return len(body) == 1 and isinstance(body[0], ast.Raise) and body[0].exc is None
+        if not body or not (isinstance(body[-1], ast.Raise) and body[-1].exc is None):
+            return False
+        return not any(isinstance(x, (ast.Return, ast.Continue, ast.Break)) for s in body for x in ast.walk(s))
 
     def sink_of_handler(self, f: FuncInfo, h: ast.ExceptHandler) -> str:
         names = []
